@@ -1,4 +1,5 @@
 import LexgenModel.Proofs.Backtrack
+import LexgenModel.Proofs.Totality
 /-!
 # C12 — Macro expansion terminates (model part)
 
@@ -18,5 +19,26 @@ theorem C12_backtrack_no_assert (d : DFA Nat) (hT : TargetsOK d)
     (hreach : ∀ s, s < d.length → ∃ i, i < d.length ∧ (d.st i).initial = true ∧ Path d i s) :
     ∃ d', updateBacktracks d = some d' :=
   backtrack_total d hT hreach
+
+/-- The subset construction ends within its fuel on every well-formed NFA (the model's `none` stands for
+a loop that would not end): at most `2^|nfa|` subsets are expanded, each pushing a bounded number of
+closures. -/
+theorem C12_subset_construction_terminates (nfa : NFA) (hwf : NFAWF nfa) : ∃ d, nfaToDfa nfa = some d :=
+  nfaToDfa_total nfa hwf
+
+/-- The Thompson construction never trips one of the NFA's own assertions (the `assert!`s of
+`add_char_transition`, `add_empty_transition`, ..): the only errors of `add_regex` are the user's. -/
+theorem C12_add_regex_no_assertion (nfa : NFA) (hwf : NFAWF nfa) (re : Regex) (ctx : Option Nat) (value : Nat) :
+    ∀ e, nfa.addRegex re ctx value = .error e → e.isInternal = false :=
+  addRegex_no_internal nfa hwf re ctx value
+
+/-- **Expansion is total.** Whatever the definition (bracket ranges non-inverted), the model of `lexer()`
+never hits an internal assertion (NFA assertions, the `assert_eq!` of `update_backtracks`, "predecessor of a
+state is removed in simplification") and every work-list loop ends within its fuel: the macro either
+produces a machine or reports an error of the user (mixed rules, duplicates, first rule set not `Init`,
+unbound variable, unknown built-in, non-class operand of `#`, cyclic variable). -/
+theorem C12_expansion_total (items : LexerDef) (hp : ItemsPiecesOK items) :
+    ∀ e, compileLexer items = .error e → e.isInternal = false :=
+  compileLexer_no_internal items hp
 
 end Lexgen
